@@ -170,7 +170,7 @@ theorem sim_shift (cfg : Cfg) (ar : Arith) (now : Int) (s : State) (keys : List 
   | true =>
     have he := exists_true_abs cfg s hinv hx
     simp only [Model.stepCore, Spec.step, hx, he, Bool.not_true, Bool.false_eq_true, if_false]
-    obtain ⟨a1, a2⟩ := shiftLoop_sim cfg keys (Model.summon s) hi
+    obtain ⟨a1, a2⟩ := shiftLoop_sim cfg ar keys (Model.summon s) hi
     obtain ⟨b1, b2⟩ := settleAfterDelete_sim cfg s _ hinv a1
     rw [habs] at a2
     refine ⟨?_, ?_, b1⟩
@@ -262,13 +262,50 @@ theorem sim_areKeys (cfg : Cfg) (ar : Arith) (now : Int) (s : State) (keys : Lis
     apply flagMap_congr
     intro k; rw [has_absI]
 
+theorem condHolds_negCmp (ar : Arith) (ty : NumTy) (cond : Option (RelOp × Int)) (cur : Int)
+    (h : Model.isFltOrd ty cond = false) :
+    condHolds (Model.negCmp ar) ty cond cur = condHolds ar ty cond cur := by
+  cases cond with
+  | none => rfl
+  | some p =>
+    obtain ⟨op, ref⟩ := p
+    cases ty <;> cases op <;> simp_all [condHolds, numCmp, Model.isFltOrd, Model.negCmp]
+
+theorem numAdd_negCmp (ar : Arith) (ty : NumTy) (a b : Int) : numAdd (Model.negCmp ar) ty a b = numAdd ar ty a b := by
+  cases ty <;> rfl
+
+theorem incStep_negCmp (cfg : Cfg) (ar : Arith) (now : Int) (s : State) (ty : NumTy) (k : Key) (by_ : Int)
+    (cond : Option (RelOp × Int)) (ine ie : Option IncMeta) (h : Model.isFltOrd ty cond = false) :
+    Model.incStep cfg (Model.negCmp ar) now s ty k by_ cond ine ie = Model.incStep cfg ar now s ty k by_ cond ine ie := by
+  unfold Model.incStep Model.incCore
+  simp only [condHolds_negCmp _ _ _ _ h, Model.incApply, numAdd_negCmp]
+
+/-- good facts, or no tag: the comparisons are the stated ones -/
+theorem incStep_cmpArith (cfg : Cfg) (ar : Arith) (now : Int) (s : State) (ty : NumTy) (k : Key) (by_ : Int)
+    (cond : Option (RelOp × Int)) (ine ie : Option IncMeta)
+    (hq : Q cfg (if !cfg.fltCondDirect && Model.isFltOrd ty cond then [Tag.nanCond] else [])) :
+    Model.incStep cfg (Model.cmpArith cfg ar) now s ty k by_ cond ine ie = Model.incStep cfg ar now s ty k by_ cond ine ie := by
+  cases hd : cfg.fltCondDirect with
+  | true => simp only [Model.cmpArith, hd, if_true]
+  | false =>
+    simp only [Model.cmpArith, hd, Bool.false_eq_true, if_false]
+    cases ho : Model.isFltOrd ty cond with
+    | false => exact incStep_negCmp cfg ar now s ty k by_ cond ine ie ho
+    | true =>
+      simp only [hd, ho, Bool.not_false, Bool.and_self, if_true] at hq
+      exact Q.absurd_tag hq (fun hg => by have := Cfg.good_fltCond hg; rw [this] at hd; cases hd)
+
 theorem sim_inc (cfg : Cfg) (ar : Arith) (now : Int) (s : State) (ty : NumTy) (k : Key) (by_ : Int)
     (cond : Option (RelOp × Int)) (ine ie : Option IncMeta) (hinv : Inv cfg s)
     (hq : Q cfg (Model.stepCore cfg ar now s (.inc ty k by_ cond ine ie)).tags) :
     Sim cfg ar now s (.inc ty k by_ cond ine ie) := by
   obtain ⟨hi, habs, hex⟩ := touch cfg s hinv
   unfold Sim
-  simp only [Model.stepCore, Spec.step, Model.incStep, Spec.incStep] at hq ⊢
+  simp only [Model.stepCore] at hq ⊢
+  have harith := incStep_cmpArith cfg ar now s ty k by_ cond ine ie hq.right
+  rw [harith] at hq ⊢
+  replace hq := hq.left
+  simp only [Spec.step, Model.incStep, Spec.incStep] at hq ⊢
   cases hz : numIsZero ty by_ with
   | true => simp only [if_true]; triv3 hinv
   | false =>
